@@ -854,3 +854,39 @@ def flows_to_return(f: FuncInfo, expr: ast.AST, limit: int = 200) -> bool:
                     if isinstance(st, ast.Expr) or dn in rd.defs_reaching(un, name) or un == dn:
                         work.append(u)
     return False
+
+
+def returned_exprs(f: FuncInfo, depth: int = 4):
+    """[(return statement, [expressions the returned value can be])] -- a returned plain local name is followed back through its
+    definitions (`result = E; return result` returns E; copies of copies followed; a name with a definition that is not a plain
+    assignment stays itself)"""
+    g = C.cfg_of(f.node)
+    rd = rd_of(f)
+
+    def origins(e: ast.AST, at: int, d: int, seen: frozenset):
+        if not isinstance(e, ast.Name) or d <= 0:
+            return [e]
+        defs = rd.defs_reaching(at, e.id)
+        if not defs or g.entry in defs:
+            return [e]
+        out = []
+        for dn in sorted(defs):
+            st = g.stmt[dn]
+            if (e.id, dn) in seen:
+                continue
+            if isinstance(st, ast.Assign) and len(st.targets) == 1 and isinstance(st.targets[0], ast.Name) and st.targets[0].id == e.id:
+                out += origins(st.value, dn, d - 1, seen | {(e.id, dn)})
+            elif isinstance(st, ast.AnnAssign) and isinstance(st.target, ast.Name) and st.value is not None:
+                out += origins(st.value, dn, d - 1, seen | {(e.id, dn)})
+            else:
+                return [e]
+        return out or [e]
+
+    res = []
+    for rt in func_returns(f):
+        if rt.value is None:
+            res.append((rt, []))
+            continue
+        n = g.node_of(rt)
+        res.append((rt, origins(rt.value, n, depth, frozenset()) if n is not None else [rt.value]))
+    return res
